@@ -219,11 +219,22 @@ class DocEngine:
             cands = sorted(x for x in st.names() if x.rsplit("/", 1)[-1] not in std_base and x != "mimetype" and x != ds.RDF and not x.endswith("/"))
             if not cands:
                 return {"op": "touch", "part": "manifest"}
+            # bias: names that are a prefix of / prefixed by another name (same content added
+            # from a path and from a file-like object gives Pictures/<hash>.bin and Pictures/<hash>)
+            near = [x for x in cands if any(y != x and (y.startswith(x) or x.startswith(y)) for y in st.names() if not y.endswith("/"))]
+            if near and rng.chance(0.6, "dpnear"):
+                cands = near
             op["name"] = rng.choice(cands, "dpname")
         elif name == "add_file":
             op["via"] = rng.choice(["path", "pathobj", "bytesio", "chunked", "image"], "via")
             # repeated content allowed: small id space
             op["content"] = rng.randint(0, 3, "content")
+            prev = getattr(self, "_added", [])
+            if prev and rng.chance(0.4, "add_again"):
+                # the same content once more, through the other kind of argument
+                cid, pvia = rng.choice(prev, "add_prev")
+                op["content"] = cid
+                op["via"] = rng.choice(["bytesio", "chunked"] if pvia in ("path", "pathobj", "image") else ["path", "pathobj"], "via2")
         elif name == "save":
             op.update(self._gen_save(rng))
         elif name == "reopen":
@@ -1542,6 +1553,8 @@ class DocEngine:
         st.over[res] = data
         st.touched.add(ds.MANIFEST)
         self.flags.add("added_file")
+        if via != "image":
+            self._added = getattr(self, "_added", []) + [[cid, via]]
         self.n_edits += 1
         if not res.startswith("Pictures/"):
             return [Violation(self.prop, "add_file-name", "add_file", self._feats(), None, f"returned {res!r}")]
